@@ -17,6 +17,7 @@ import (
 
 type c14Case struct {
 	Segs   []refsplit.Seg `json:"segs"`
+	Arith  []bool         `json:"arith,omitempty"` // the segment's text (a number) is produced by an arithmetic expansion
 	IFS    string         `json:"ifs"`
 	IFSSet bool           `json:"ifs_set"`
 	Kind   string         `json:"kind"`
@@ -42,6 +43,15 @@ func c14Env(cs c14Case) *interp.ExecEnv {
 func c14Direct(cs c14Case) ast.Word {
 	var w ast.Word
 	for i, s := range cs.Segs {
+		if i < len(cs.Arith) && cs.Arith[i] {
+			ae := &ast.ArithExp{Expr: ast.Word{&ast.Lit{Value: c14ArithSrc(s.Text)}}}
+			if s.Quoted {
+				w = append(w, &ast.Quote{Tok: `"`, Value: ast.Word{ae}})
+			} else {
+				w = append(w, ae)
+			}
+			continue
+		}
 		if s.Quoted {
 			tok := `'`
 			if i%2 == 1 {
@@ -70,6 +80,10 @@ func c14Parsed(cs c14Case, env *interp.ExecEnv) (ast.Word, string, error) {
 		name := fmt.Sprintf("v%d", i)
 		env.Set(name, s.Text)
 		switch {
+		case i < len(cs.Arith) && cs.Arith[i] && s.Quoted:
+			b.WriteString(`"$((` + c14ArithSrc(s.Text) + `))"`)
+		case i < len(cs.Arith) && cs.Arith[i]:
+			b.WriteString(`$((` + c14ArithSrc(s.Text) + `))`)
 		case s.Quoted && s.Text == "":
 			b.WriteString(`""`)
 		case s.Quoted:
@@ -153,6 +167,14 @@ func c14Exec(c *core.Ctx, cs c14Case) {
 	}
 }
 
+// c14ArithSrc is an expression whose value prints as the decimal text n.
+func c14ArithSrc(n string) string {
+	if strings.HasPrefix(n, "-") {
+		return "0" + n
+	}
+	return n + "+0"
+}
+
 func c14Kinds(ifs string, set bool, pos int) []refsplit.Seg {
 	eff := ifs
 	if !set {
@@ -204,6 +226,21 @@ func c14Gen(c *core.Ctx) {
 				}
 				if k < 0 {
 					break
+				}
+			}
+		}
+	}
+	// results of arithmetic expansions are unquoted text like any other expansion:
+	// IFS made of digits / the minus sign cuts them
+	nums := []string{"101", "-1", "22", "11", "120", "0", "-12"}
+	for _, ifs := range []string{"1", "-", "0", "2 ", "1-"} {
+		for _, a := range nums {
+			for _, qa := range []bool{false, true} {
+				core.Do(c, c14Case{Segs: []refsplit.Seg{{Text: a, Quoted: qa}}, Arith: []bool{true}, IFS: ifs, IFSSet: true, Kind: "arith-result"}, c14Exec)
+				for _, b := range nums[:4] {
+					for _, qb := range []bool{false, true} {
+						core.Do(c, c14Case{Segs: []refsplit.Seg{{Text: "x"}, {Text: a, Quoted: qa}, {Text: "y", Quoted: true}, {Text: b, Quoted: qb}}, Arith: []bool{false, true, false, true}, IFS: ifs, IFSSet: true, Kind: "arith-result"}, c14Exec)
+					}
 				}
 			}
 		}
